@@ -3,7 +3,7 @@
 From AP.Model Require Import Prelude Bytes Text WsDoc Vocab Pred Layout Json JsonLeaf JsonTables JsonEnc JsonTree JsonCheck JsonDec JsonCodec
      JsonNorm JsonRoundCheck DocEquiv.
 From AP.Gen Require Import Layout TypeLists Switches JsonW JsonR.
-From AP.Proofs Require Import NlvP TextP WsParseP DecEquivP DecInstP C01TreeWfP C01RoundP C01NormP C05FixP.
+From AP.Proofs Require Import NlvP TextP WsParseP DecEquivP DecInstP C01TreeWfP C01LeafP C01RoundP C01NormP C05FixP.
 Local Open Scope nat_scope.
 
 Lemma fix_round_tables : kinds_ok jw_tables jr_tables layout_of = true.
@@ -29,14 +29,14 @@ Proof. exact (ddepth_norm layout_of registry load_switch tl_ActivityTypes tl_Act
 Lemma norm_idem_inst x : norm_doc (norm_doc x) = norm_doc x.
 Proof. exact (norm_idem layout_of fix_layout_nodup x). Qed.
 
-Lemma norm_is_fixpoint_inst x : wf_doc x = true -> ddepth x <= 64 ->
+Lemma norm_is_fixpoint_inst x : wf_doc x = true -> ddepth x <= 149 ->
   exists b, enc (norm_doc x) = Some b /\ b <> [] /\ dec b = Some (Ok (norm_doc x)).
 Proof.
   exact (norm_is_fixpoint jw_tables jr_tables layout_of registry load_switch tl_ActivityTypes tl_ActorTypes tl_LinkTypes
            fix_round_tables fix_terms_closed fix_layout_nodup x).
 Qed.
 
-Lemma two_rounds_inst x : wf_doc x = true -> ddepth x <= 64 ->
+Lemma two_rounds_inst x : wf_doc x = true -> ddepth x <= 149 ->
   exists b1 b2, enc x = Some b1 /\ dec b1 = Some (Ok (norm_doc x)) /\
                 enc (norm_doc x) = Some b2 /\ b2 <> [] /\ dec b2 = Some (Ok (norm_doc x)).
 Proof.
@@ -45,7 +45,7 @@ Proof.
 Qed.
 
 (* stated for a DECODED value: whatever document d it came from *)
-Lemma decoded_fixpoint_inst d y : dec d = Some (Ok y) -> wf_doc y = true -> ddepth y <= 64 ->
+Lemma decoded_fixpoint_inst d y : dec d = Some (Ok y) -> wf_doc y = true -> ddepth y <= 149 ->
   exists b1 y1 b2, enc y = Some b1 /\ dec b1 = Some (Ok y1) /\ y1 = norm_doc y /\ wf_doc y1 = true /\
                    enc y1 = Some b2 /\ dec b2 = Some (Ok y1).
 Proof.
@@ -54,7 +54,7 @@ Proof.
 Qed.
 
 (* a decoded value that is its own normal form: one round changes nothing at all *)
-Lemma decoded_normal_fixpoint_inst d y : dec d = Some (Ok y) -> wf_doc y = true -> ddepth y <= 64 -> norm_doc y = y ->
+Lemma decoded_normal_fixpoint_inst d y : dec d = Some (Ok y) -> wf_doc y = true -> ddepth y <= 149 -> norm_doc y = y ->
   exists b, enc y = Some b /\ dec b = Some (Ok y).
 Proof.
   intros _ Hw Hd E.
@@ -63,7 +63,7 @@ Proof.
   exists b. split; assumption.
 Qed.
 
-Lemma rounds_stable_inst x : wf_doc x = true -> ddepth x <= 64 ->
+Lemma rounds_stable_inst x : wf_doc x = true -> ddepth x <= 149 ->
   exists b1 b2, rounds_doc 0 x = Some (b1, norm_doc x) /\ forall n, rounds_doc (S n) x = Some (b2, norm_doc x).
 Proof.
   exact (rounds_stable jw_tables jr_tables layout_of registry load_switch tl_ActivityTypes tl_ActorTypes tl_LinkTypes
@@ -71,13 +71,13 @@ Proof.
 Qed.
 
 (* ---- whole documents: everything equivalent to the written document ---- *)
-Lemma written_tree_inst x : wf_doc x = true -> ddepth x <= 64 -> exists v, tree_of jw_tables x = Some (Some v).
+Lemma written_tree_inst x : wf_doc x = true -> ddepth x <= 149 -> exists v, tree_of jw_tables x = Some (Some v).
 Proof.
   exact (written_tree_exists jw_tables jr_tables layout_of registry load_switch tl_ActivityTypes tl_ActorTypes tl_LinkTypes
            fix_round_tables x).
 Qed.
 
-Lemma equivalent_document_reads_inst x v d : wf_doc x = true -> ddepth x <= 64 ->
+Lemma equivalent_document_reads_inst x v d : wf_doc x = true -> ddepth x <= 149 ->
   tree_of jw_tables x = Some (Some v) -> keys_clean d = true -> doc_equiv known text v d ->
   dec_tree d = Some (norm_doc x).
 Proof.
@@ -87,7 +87,7 @@ Proof.
 Qed.
 
 (* ... as bytes, with any white space *)
-Lemma equivalent_document_bytes_inst x v pre t post : wf_doc x = true -> ddepth x <= 64 ->
+Lemma equivalent_document_bytes_inst x v pre t post : wf_doc x = true -> ddepth x <= 149 ->
   tree_of jw_tables x = Some (Some v) ->
   wf_ws pre = true -> wf_ws post = true -> wf_wt t = true -> wdepth t <= 300 ->
   keys_clean (strip t) = true -> doc_equiv known text v (strip t) ->
@@ -112,7 +112,7 @@ Proof.
 Qed.
 
 (* every round - the first included - writes the same bytes and reads the normal form *)
-Lemma rounds_all_inst x : wf_doc x = true -> ddepth x <= 64 ->
+Lemma rounds_all_inst x : wf_doc x = true -> ddepth x <= 149 ->
   exists b, b <> [] /\ enc x = Some b /\ forall n, rounds_doc n x = Some (b, norm_doc x).
 Proof.
   exact (rounds_all jw_tables jr_tables layout_of registry load_switch tl_ActivityTypes tl_ActorTypes tl_LinkTypes
@@ -120,7 +120,7 @@ Proof.
 Qed.
 
 (* for a DECODED value of the class: encode -> b, decode -> its normal form, encode -> the SAME b *)
-Lemma decoded_fixpoint_bytes_inst d y : dec d = Some (Ok y) -> wf_doc y = true -> ddepth y <= 64 ->
+Lemma decoded_fixpoint_bytes_inst d y : dec d = Some (Ok y) -> wf_doc y = true -> ddepth y <= 149 ->
   exists b, enc y = Some b /\ dec b = Some (Ok (norm_doc y)) /\ enc (norm_doc y) = Some b /\ wf_doc (norm_doc y) = true.
 Proof.
   intros _ Hw Hd.
